@@ -40,6 +40,10 @@ def parts(tier):
         out.append(dict(part="num", cfg=cfg, shards=2 if q else 6))
         out.append(dict(part="prime", cfg=cfg, shards=2 if q else 4))
         out.append(dict(part="rec", cfg=cfg, shards=2 if q else 6))
+    # GLV / Frobenius / SAC recodings on every endomorphism curve of the other built field sizes (B12_P381 has a 255-bit
+    # order: bits(n) % 64 == 63) plus synthetic lattice bases for orders of other lengths
+    out.append(dict(part="glv", cfg="asan381", shards=1))
+    out.append(dict(part="glv", cfg="asan255", shards=1))
     out.append(dict(part="fatal", cfg="asan256", shards=1))
     out.append(dict(part="fatal", cfg="asan256k", shards=1))
     return out
@@ -1475,7 +1479,7 @@ def scalar(E, maxbits):
     return v
 
 
-def run_rec(E):
+def run_rec(E, only_curves=False):
     ctx, R, rng, W, B, CAP, K = E.ctx, E.R, E.rng, E.W, E.B, E.CAP, E.K
     a, b, c, d, e, f, m, t0, t1, t2 = E.pool
     MAXB = R.BN_BITS
@@ -1778,42 +1782,96 @@ def run_rec(E):
     # ------------------------------------------------------------------ GLV / Frobenius / SAC on the endomorphism curves
     curves = {}
 
-    def curve(name):
-        """activate an endomorphism curve; -> dict(n, lam, v1, v2, x) or None"""
+    def read_vs(p1, p2):
+        """entries [1], [2] of the two bn_st[3] arrays handed to bn_rec_glv"""
+        return [R.bn_val(p1 + i * R.bn_sz) for i in (1, 2)] + [R.bn_val(p2 + i * R.bn_sz) for i in (1, 2)]
+
+    def curve(name, ident):
+        """activate a curve; -> dict for endomorphism and/or pairing-friendly curves, else None"""
         if name in curves:
             cu = curves[name]
             if cu is not None:
-                R.call("ep_param_set", cu["id"])
+                R.call("ep_param_set", ident)
             return cu
         from ..model import curves as mc
         cu = None
-        ident = R.E.get(name)
-        r = R.call("ep_param_set", ident) if ident is not None else None
-        if r is not None and not r.caught and R.L.ep_curve_is_endom():
+        r = R.call("ep_param_set", ident)
+        if not r.caught and (R.L.ep_curve_is_endom() or R.L.ep_curve_is_pairf()):
             P = R.ep_params()
-            R.L.ep_curve_get_beta.restype = ctypes.c_void_p
-            beta = R.fp_get(R.L.ep_curve_get_beta())[0]
             n, p = P["n"], P["p"]
-            s3 = mc.sqrt_mod(n - 3, n)
             lam = None
-            if s3 is not None and P["a"] == 0:
-                C = mc.WCurve(mc.Fp(p), P["a"], P["b"])
-                G = (P["gx"], P["gy"])
-                for cand in ((-1 + s3) * pow(2, -1, n) % n, (-1 - s3) * pow(2, -1, n) % n):
-                    Q = C.mul(cand, G)
-                    if Q is not None and Q[0] == beta * G[0] % p and Q[1] == G[1]:
-                        lam = cand
+            endom = bool(R.L.ep_curve_is_endom())
+            if endom:
+                R.L.ep_curve_get_beta.restype = ctypes.c_void_p
+                beta = R.fp_get(R.L.ep_curve_get_beta())[0]
+                s3 = mc.sqrt_mod(n - 3, n)
+                if s3 is not None and P["a"] == 0:
+                    C = mc.WCurve(mc.Fp(p), P["a"], P["b"])
+                    G = (P["gx"], P["gy"])
+                    for cand in ((-1 + s3) * pow(2, -1, n) % n, (-1 - s3) * pow(2, -1, n) % n):
+                        Q = C.mul(cand, G)
+                        if Q is not None and Q[0] == beta * G[0] % p and Q[1] == G[1]:
+                            lam = cand
             R.bn_put(a, 0)
             R.call("fp_prime_get_par", a)
-            cu = dict(id=ident, n=n, p=p, lam=lam, x=R.bn_val(a), pairf=P["pairf"], name=name)
+            cu = dict(id=ident, n=n, p=p, lam=lam, x=R.bn_val(a), pairf=P["pairf"], name=name, endom=endom and lam is not None, synth=None)
+            ctx.note("glv_curve_%s_%s" % (ctx.cfg, name), "order %d bits; %s" % (n.bit_length(), "lambda found with the model curve" if lam is not None
+                     else ("no usable endomorphism" if not endom else "endomorphism eigenvalue not identified: GLV class skipped")))
         curves[name] = cu
-        ctx.note("glv_curve_" + name, "lambda found with the model curve" if cu and cu["lam"] is not None else "not usable")
+        return cu
+
+    synth = {}
+
+    def synth_curve(bits, rep):
+        """a prime n = 1 mod 3 of exactly `bits` bits, lambda a root of x^2+x+1, and a reduced basis v1, v2 of the lattice
+        {(x, y): x + y*lambda = 0 mod n} from the extended Euclid sequence (GLV paper); v1[0], v2[0] by the rule of
+        ep_curve_set_endom: round(v2[2] * 2^(bits+1) / det), -round(v1[2] * 2^(bits+1) / det)"""
+        if (bits, rep) in synth:
+            return synth[(bits, rep)]
+        from ..model import curves as mc
+        while True:
+            n = nt.rand_prime(rng, bits)
+            if n % 3 == 1:
+                break
+        s3 = mc.sqrt_mod(n - 3, n)
+        lam = (-1 + (s3 if rep == 0 else -s3)) * pow(2, -1, n) % n
+        assert (lam * lam + lam + 1) % n == 0
+        seq = [(n, 0), (lam, 1)]
+        while seq[-1][0]:
+            q = seq[-2][0] // seq[-1][0]
+            seq.append((seq[-2][0] - q * seq[-1][0], seq[-2][1] - q * seq[-1][1]))
+        mi = max(i for i, (r0, _) in enumerate(seq) if r0 * r0 >= n)
+        v1 = (seq[mi + 1][0], -seq[mi + 1][1])
+        ca, cb = (seq[mi][0], -seq[mi][1]), (seq[mi + 2][0], -seq[mi + 2][1])
+        v2 = ca if ca[0] ** 2 + ca[1] ** 2 <= cb[0] ** 2 + cb[1] ** 2 else cb
+        D = v1[0] * v2[1] - v1[1] * v2[0]
+        assert abs(D) == n and all((x + y * lam) % n == 0 for x, y in (v1, v2))
+
+        def rnd(num, den):
+            sgn = -1 if (num < 0) != (den < 0) else 1
+            return sgn * ((2 * abs(num) + abs(den)) // (2 * abs(den)))
+        v10 = rnd(v2[1] << (bits + 1), D)
+        v20 = -rnd(v1[1] << (bits + 1), D)
+        p1, p2 = E.arr_new(3), E.arr_new(3)
+        for ptr, vals in ((p1, (v10, v1[0], v1[1])), (p2, (v20, v2[0], v2[1]))):
+            for i, v in enumerate(vals):
+                R.bn_put(ptr + i * R.bn_sz, v)
+        cu = dict(n=n, lam=lam, name="synthetic-b%s" % ("max" if bits % W == W - 1 else ("0" if bits % W == 0 else "mid")), endom=True, pairf=0,
+                  synth=(p1, p2), bits=bits)
+        synth[(bits, rep)] = cu
+        ctx.add("synthetic_glv_bases", 1)
         return cu
 
     def rec_glv(cu):
         if cu is None or cu["lam"] is None:
             return
         n, lam = cu["n"], cu["lam"]
+        if cu["synth"]:
+            v1, v2 = cu["synth"]
+        else:
+            v1 = R.call("ep_curve_get_v1").r
+            v2 = R.call("ep_curve_get_v2").r
+        v11, v12, v21, v22 = read_vs(v1, v2)
         c_ = rng.randrange(10)
         if c_ == 0:
             k = rng.choice([0, 1, 2, 3, n - 1, n - 2, n // 2, n // 2 + 1, lam, lam - 1, lam + 1, (lam * lam) % n])
@@ -1831,8 +1889,6 @@ def run_rec(E):
         R.bn_put(a, -k if neg else k)
         R.bn_put(m, n)
         E.junk(c, d)
-        v1 = R.call("ep_curve_get_v1").r
-        v2 = R.call("ep_curve_get_v2").r
         k0p = a if alias else c
         r = R.call("bn_rec_glv", k0p, d, a, m, v1, v2)
         if ctx.check(not r.caught, key + "|unexpected-error", {"err": r.err}):
@@ -1840,21 +1896,40 @@ def run_rec(E):
             if ctx.check(g0[0] is not None and g1[0] is not None and g0[3] and g1[3], key + "|normal-form", repr((g0, g1))):
                 ctx.check((g0[0] + g1[0] * lam - k) % n == 0, key + "|decode", {"k0": hx(g0[0]), "k1": hx(g1[0])})
                 if k < n:
-                    bound = 1 + (n.bit_length() >> 1)
+                    # rounding against a lattice basis leaves (k0, k1) = a1*v1 + a2*v2 with |a_i| <= 1/2 + e*n/2^(bits+1),
+                    # e <= 3/2 the rounding error of the precomputed reciprocals v1[0], v2[0]: |a_i| < 5/4 < 2, so each
+                    # component is below twice the sum of the basis entries (a first version asked for |a_i| <= 1 and
+                    # fired on B12_P381 / k0 = 1.002 * |v2[1]|: model asked for more than the rounding guarantees)
+                    ctx.check(abs(g0[0]) <= 2 * (abs(v11) + abs(v21)) + 2 and abs(g1[0]) <= 2 * (abs(v12) + abs(v22)) + 2, key + "|lattice-bound",
+                              {"k0": hx(g0[0]), "k1": hx(g1[0]), "v1": [hx(v11), hx(v12)], "v2": [hx(v21), hx(v22)]})
+                    # half length (bound asserted by the stock test on the library's own curves; two bits of slack for
+                    # the synthetic bases, whose second vector may be the longer neighbour)
+                    bound = 1 + (n.bit_length() >> 1) + (2 if cu["synth"] else 0)
                     ctx.check(abs(g0[0]).bit_length() <= bound and abs(g1[0]).bit_length() <= bound, key + "|length",
                               {"k0_bits": abs(g0[0]).bit_length(), "k1_bits": abs(g1[0]).bit_length(), "bound": bound})
             E.unchanged([(m, n)], key)
 
     def rec_frb(cu=None):
-        cof = cu is not None
-        if cof:
-            n, x, p = cu["n"], cu["x"], cu["p"]
-            if n != 36 * x ** 4 + 36 * x ** 3 + 18 * x ** 2 + 6 * x + 1:
-                ctx.note("frb_bn_parameter", "order is not the BN polynomial in the reported parameter: class skipped")
+        cof = cu is not None and cu["n"] == 36 * cu["x"] ** 4 + 36 * cu["x"] ** 3 + 18 * cu["x"] ** 2 + 6 * cu["x"] + 1
+        if cu is not None and not cof:
+            # any other pairing-friendly family: expansion of k < n in base x (the curve parameter), as the GLS
+            # multiplications of its twists use it
+            n, x = cu["n"], cu["x"]
+            if abs(x) < 2:
                 return
+            sub = 4
+            while abs(x) ** sub <= n and sub < 16:
+                sub += 2
+            if abs(x) ** sub <= n:
+                return
+            k = rng.choice([0, 1, 2, n - 1, n // 2, abs(x), abs(x) - 1, abs(x) ** (sub - 1), rng.randrange(n), rng.randrange(n), rng.randrange(n),
+                            scalar(E, n.bit_length() - 1)])
+            key = "bn_rec_frb|%s|sub%d" % (cu["name"], sub)
+        elif cof:
+            n, x, p = cu["n"], cu["x"], cu["p"]
             lam = p % n          # eigenvalue of the Frobenius on the order-n subgroup of the twist
             k = rng.choice([0, 1, 2, n - 1, n // 2, rng.randrange(n), rng.randrange(n), rng.randrange(n), scalar(E, n.bit_length() - 1)])
-            key = "bn_rec_frb|bn|sub4"
+            key = "bn_rec_frb|%s|bn|sub4" % cu["name"]
             sub = 4
         else:
             x = rng.choice([-(2 ** 63 + 2 ** 62 + 2 ** 60 + 2 ** 57 + 2 ** 48 + 2 ** 16), 0x44E992B44A6909F1, 2, 3, -2, -3, B - 1, B, -B, E.mag(2) or 5,
@@ -1887,6 +1962,7 @@ def run_rec(E):
             R.bn_put(b, x)
             R.bn_put(m, n)
             r = R.call("bn_rec_frb", arr, sub, kp, b, m, int(cof))
+            chain = False
             if not ctx.check(not r.caught, key + "|unexpected-error", {"err": r.err}):
                 return
             got = [R.bn_get(E.arr_at(arr, i)) for i in range(sub)]
@@ -1900,8 +1976,15 @@ def run_rec(E):
             else:
                 ctx.check(sum(v * x ** i for i, v in enumerate(ki)) == k, key + "|decode", det)
                 ctx.check(all(abs(v) < abs(x) for v in ki), key + "|digit-range", det)
+            chain = cu is not None and sub <= 8
         finally:
             R.free(arr)
+        if chain:
+            # the sub-scalars as the regular GLS multiplications hand them to bn_rec_sac: magnitudes, first one made odd
+            ks = [abs(v) for v in ki]
+            ks[0] |= 1
+            ctx.end()
+            sac_run("bn_rec_sac|%s|m%d|%s" % (cu["name"], sub, "cof" if cof else "nocof"), ks, abs(x), 1, sub, n.bit_length(), cof)
 
     def rec_sac():
         mm = rng.choice([1, 2, 4, 6, 8])
@@ -1919,10 +2002,16 @@ def run_rec(E):
                 v = rng.choice([0, 1, (1 << kb) - 1, 1 << (kb - 1)])
             ks.append(v)
         ks[0] |= 1
+        sac_run("bn_rec_sac|m%d|%s" % (mm, "cof" if cof else "nocof"), ks, uu, cc, mm, nbits, cof)
+
+    def sac_run(key, ks, uu, cc, mm, nbits, cof):
+        l = (nbits + cc * mm - 1) // (cc * mm) + 1
         L = max(l, uu.bit_length() + 1)
         if cof:
             L = max([L] + [v.bit_length() + 1 for v in ks])
-        key = "bn_rec_sac|m%d|%s" % (mm, "cof" if cof else "nocof")
+        if any(v.bit_length() > L - 1 for v in ks):
+            ctx.add("bn_rec_sac_inputs_longer_than_the_recoding_skipped", 1)
+            return
         if not ctx.begin(key, [[hx(v) for v in ks], hx(uu), mm, nbits, int(cof)]):
             return
         arr = E.arr_new(mm)
@@ -1965,20 +2054,40 @@ def run_rec(E):
 
     ops = ([rec_win] * 5 + [rec_slw] * 4 + [rec_naf] * 6 + [rec_reg] * 5 + [rec_jsf] * 4 + [rec_tnaf_mod] * 2 + [rec_tnaf] * 4 + [rec_rtnaf] * 2 +
            [rec_frb] * 2 + [rec_sac] * 3)
-    N = ctx.n(1500 if E.w8 else 3000, 60000)
+    N = 0 if only_curves else ctx.n(1500 if E.w8 else 3000, 60000)
     for _ in range(N):
         E.newpoison()
         guard(ctx, rng.choice(ops))
-    # curve-bound recodings: one activation per curve (ep_param_set costs milliseconds to seconds)
-    for name in ("SECG_K256", "BN_P256", "SM9_P256"):
-        cu = curve(name)
-        for _ in range(ctx.n(60 if E.w8 else 150, 4000)):
-            E.newpoison()
-            guard(ctx, lambda: rec_glv(cu))
-        if name == "BN_P256" and cu is not None:
+    # synthetic lattice bases: orders of every interesting length modulo the digit size, independent of the curves built
+    fpbits = R.K["RLC_FP_DIGS"] * W
+    for bits in (61, 63, 64, 65, 127, 128, 190, 191, 192, 254, 255, 256, 319, 320, 383, 384):
+        if bits > fpbits:
+            continue
+        for rep in range(2):
+            cu = synth_curve(bits, rep)
+            for _ in range(ctx.n(15 if E.w8 else 40, 600)):
+                E.newpoison()
+                guard(ctx, lambda: rec_glv(cu))
+    # curve-bound recodings on every endomorphism / pairing curve of this build: one activation per curve
+    found = []
+    for name, ident in R.ep_param_ids():
+        cu = curve(name, ident)
+        if cu is None:
+            continue
+        found.append(name)
+        if cu["endom"]:
             for _ in range(ctx.n(60 if E.w8 else 150, 4000)):
                 E.newpoison()
+                guard(ctx, lambda: rec_glv(cu))
+        if cu["pairf"]:
+            for _ in range(ctx.n(40 if E.w8 else 100, 3000)):
+                E.newpoison()
                 guard(ctx, lambda: rec_frb(cu))
+    ctx.note("curves_with_endomorphism_or_pairing_" + ctx.cfg, found)
+
+
+def run_glv(E):
+    run_rec(E, only_curves=True)
 
 
 # =============================================================================================== part "fatal"
